@@ -256,6 +256,9 @@ def tlc(module, cfg=None, wd=None, workers=None, simulate=None, depth=None, env=
                 except Exception as ex:  # noqa
                     raise ToolError("cannot parse TLC print line: %s (%s)" % (line[:200], ex))
                 continue
+            if line.startswith("The coverage statistics at"):
+                r.coverage = {}        # TLC prints interim reports every minute: only the last one counts
+                continue
             m = cov_re.match(line)
             if m:
                 name = m.group(1)
